@@ -797,7 +797,8 @@ def run(ctx):
         rule=('Product of: wallet UTXO multisets over amount classes taken from the branch conditions (below input fee, '
               'effective 0/1/DUST/DUST+1, 0.01, 1, 1+1 dewy, 5, 10 LBC) x confirmation state (verified@5, unverified@0, '
               'unverified@-1); targets placed at reference sums (subset sums / singles / total) minus surplus in '
-              '{-1,0,1,c/2,c,c+1,C,C+1,C+DUST,C+DUST+1,..} (c = selector cost of change, C = builder cost of change) plus '
+              '{-1,0,1,c/2,c34,c,c+1,C34+DUST+1,C,C+1,C+DUST,C+DUST+1,..} (c = 46 x fee rate, the selector cost of change, C = 56 x '
+              'fee rate, the builder cost of change, c34/C34 the same with a 34-byte output) plus '
               'short-by-1 and far-short; output shapes pay1, pay2, claim (name 1/30, name-char fee 0/200000), update, '
               'support, support+data, purchase, 250 outputs, 250 UTXOs, input-only sweep; pre-chosen reserved input worth '
               'cost-d for d in {5,9,10,11,50,99,100,0,-1,-DUST,..}; fee_per_byte 1/50/1000; decoys (reserved, spent, '
@@ -809,7 +810,12 @@ def run(ctx):
                 'fee_per_byte': [1, 50, 1000], 'generator_items': len(items)},
         assumptions=['default schedule only (one build at a time; concurrency is C14)',
                      'accounts are hierarchical-deterministic with gaps 2/2; sqlite :memory: trusted',
-                     'fee upper bound = byte/name fee on placeholder-signature sizes + 6 change-output costs + DUST',
+                     'fee upper bound = byte/name fee on placeholder-signature sizes + 6 change-output costs + DUST; a '
+                     'change-output cost is what the wallet itself charges: (10 + 46) bytes x fee_per_byte (it prices the '
+                     'prospective change output with a 32-byte placeholder hash, 12 bytes more than the real output); '
+                     'refusals that would be unjustified under a 34-byte price are tallied',
+                     'one wallet object serves consecutive cases with the same coins: the txo table is restored by SQL and '
+                     'compared with its baseline before reuse; every violation is re-judged on a fresh wallet',
                      'InsufficientFundsError is judged against per-strategy feasibility predicates (refs/fee_ref.feasible), '
                      'counting only outputs worth more than the fee to spend them',
                      'input-only builds (no requested output, five balancing rounds): refusals are tallied, not judged',
